@@ -181,7 +181,7 @@ def events_digest(evs):
 
 
 class DepthStream(Stream):
-    """Random recursion families in a child with the Python stack out of the way (recursion limit 10^6,
+    """Random recursion families in a child with the Python stack out of the way (recursion limit 150 000,
     RLIMIT_STACK raised): error class, every probe's (_copy_depth, scope.size(), frame depth) against the model."""
 
     name = "depth"
@@ -190,7 +190,7 @@ class DepthStream(Stream):
     def cases(self, ctx):
         rng = ctx.rng_for("depth")
         out = []
-        for i in range(ctx.scale(170, 2400)):
+        for i in range(ctx.scale(170, 1200)):
             lax = rng.chance(30)
             names = ["main"] + [f"t{j}" for j in range(rng.choice([0, 1, 1, 2, 3]))]
             g = Gen(rng, names, lax)
@@ -202,7 +202,10 @@ class DepthStream(Stream):
     def impl(self, case):
         from ..impl.c09_run import run_job
 
-        r = run_job(render_job(case, full=True, cpu=120.0), flavour="hi", wall_limit=600.0)
+        # suppress_blank_control_flow_blocks off: `BlockNode.render_to_output` then always takes its `sum(<genexpr>)`
+        # path (5 frames per block level, the constant of the model); with the flag on, a block whose children are all
+        # "blank" (capture, macro, assign…) is rendered by a plain loop, one frame less per such level
+        r = run_job(dict(render_job(case, full=True, cpu=120.0), suppress_blank=False), flavour="hi", wall_limit=600.0)
         evs = r.get("evs") or []
         return {
             "out": r["out"],
@@ -236,7 +239,7 @@ class DepthStream(Stream):
         if o in ("timeout", "crash"):
             return (f"depth|{o}", f"render did not finish: {o}")
         if o == "RecursionError":
-            return ("depth|RecursionError", "RecursionError with the recursion limit at 10^6")
+            return ("depth|RecursionError", "RecursionError with the recursion limit at 150 000")
         if o not in ("ok",) + PROPERTY_ERRORS + OTHER_LIQUID + ("AssertionError",):
             return (f"depth|unexpected|{o}", f"unexpected outcome {o}")
         if obs["maxCopy"] > lim + 1:
@@ -360,7 +363,7 @@ class ParseStream(Stream):
     def cases(self, ctx):
         rng = ctx.rng_for("parse")
         out = []
-        for i in range(ctx.scale(420, 9000)):
+        for i in range(ctx.scale(420, 4000)):
             g = PGen(rng)
             k = rng.below(100)
             if k < 8:
@@ -417,7 +420,7 @@ class ParseStream(Stream):
 PARSE_CPU_S = 3.0  # "promptly" (parse stream, sources of a few hundred characters): CPU seconds for one parse
 
 
-SLOW_FLOOR_S = 2.0  # "promptly" (sources stream): a parse that needs more user-CPU than this ...
+SLOW_FLOOR_S = 3.0  # "promptly" (sources stream): a parse that needs more user-CPU than this ...
 GROWTH_MAX = 12.0  # ... must not cost more than 12x what the same shape a quarter of the size costs (linear: 4x, quadratic: 16x);
 # both thresholds are deliberately coarse: user-CPU time on a shared machine swings by a factor 2-3, and a flagged case is measured twice
 
@@ -506,7 +509,7 @@ class FamilyStream(Stream):
         out = []
         for kind in FAMILY_KINDS:
             for d in depths:
-                for ws in ctx.scale(["if"] + (["mixed"] if d in (3, 30) else []), ["if", "for", "when", "mixed"]):
+                for ws in ctx.scale(["if"] + (["mixed"] if d in (3, 30) else []), ["if", "mixed"] + (["for", "when"] if d in (3, 10, 30) else [])):
                     for mode in ("strict", "lax"):
                         for asy in ctx.scale([False], [False, True]):
                             out.append(fam_case(kind, d, ws, mode, asy))
@@ -598,7 +601,7 @@ REPEATS = {
     "capture": "{% capture x %}", "hash": "{% # %}", "assign": "{% assign x = 1 %}", "tablerow": "{% tablerow i in a %}", "unless": "{% unless a %}",
     "inline_if": "{% if a %}x", "nl_liquid": "{% liquid\nif a\n%}", "ifchanged": "{% ifchanged %}", "include": "{% include 'x' %}", "cycle": "{% cycle 1, 2 %}",
 }
-SUPERLINEAR = ("open_out", "raw", "doc")  # the lexer regex backtracks on these (known findings)
+SUPERLINEAR = ("open_out", "raw", "doc", "brace")  # the lexer regex backtracks on these (known findings)
 NESTED = {
     "parens": lambda n: "{% if " + "(" * n + "a" + ")" * n + " %}x{% endif %}",
     "nots": lambda n: "{% if " + "not " * n + "a %}x{% endif %}",
@@ -642,7 +645,7 @@ class SourceStream(Stream):
         rng = ctx.rng_for("sources")
         from ..gen.templates import gen_program, malform
 
-        for i in range(ctx.scale(100, 1500)):
+        for i in range(ctx.scale(100, 600)):
             prog = gen_program(rng)
             src = prog["source"] if isinstance(prog, dict) and "source" in prog else str(prog)
             for _ in range(rng.choice([1, 1, 2, 3])):
@@ -737,6 +740,8 @@ ASSUMPTIONS = [
     "frames, the harness measures CPU time and RecursionError (this part of the property is checked by test, not proved)",
     "the lexer (one regular-expression scan) is outside ParseLoops; its termination is the regex engine's, its cost is measured by the sources stream",
     "expression parsing inside a tag is outside ParseLoops (expressions are valid or absent in the parse stream); the sources stream exercises it",
+    "frame constants are those of the non-suppressed BlockNode path (the depth stream runs with suppress_blank_control_flow_blocks=False); "
+    "a block whose children are all blank costs one frame less per level with the flag on, so the proved upper bound still holds",
     "block.super, required blocks, break/continue, loop limits and the asynchronous frame costs are not in Recur (async families are checked by the direct oracle only)",
     "in LAX/WARN mode a RecursionError raised while a partial is being parsed is wrapped by from_string into LiquidError and then dropped: such a stack overflow is invisible to the observation 'ok'",
 ]
